@@ -191,6 +191,39 @@ Qed.
 
 End Dedup.
 
+Lemma adjb_cons (r : A -> A -> bool) a b t : adjb r (a :: b :: t) = r a b && adjb r (b :: t).
+Proof. reflexivity. Qed.
+
+Lemma adjb_repeat_app (le : A -> A -> bool) x k r :
+  le x x = true -> match r with [] => True | y :: _ => le x y = true end -> adjb le r = true ->
+  adjb le (repeat x k ++ r) = true.
+Proof.
+  intros Hx Hh Hr. induction k as [|k IH]; [exact Hr|].
+  cbn [repeat app]. destruct (repeat x k ++ r) as [|z t] eqn:E; [reflexivity|].
+  rewrite adjb_cons, IH, andb_true_r.
+  destruct k; cbn [repeat app] in E.
+  - subst r. exact Hh.
+  - injection E as <- _. exact Hx.
+Qed.
+
+Lemma adjb_expand (le : A -> A -> bool) l :
+  forallb (fun xk => le (fst xk) (fst xk) && (0 <? snd xk)) l = true -> adjb le (map fst l) = true ->
+  adjb le (expand l) = true.
+Proof.
+  induction l as [|[x k] t IH]; intros Hr Ha; [reflexivity|].
+  cbn [forallb fst snd] in Hr. apply andb_true_iff in Hr. destruct Hr as [Hx Hr].
+  apply andb_true_iff in Hx. destruct Hx as [Hx _].
+  unfold expand. cbn [flat_map fst snd]. fold (expand t).
+  destruct t as [|[y j] t'].
+  - cbn [expand flat_map]. apply adjb_repeat_app; [exact Hx|exact I|reflexivity].
+  - cbn [map fst] in Ha. rewrite adjb_cons in Ha. apply andb_true_iff in Ha. destruct Ha as [Hxy Ha].
+    specialize (IH Hr Ha).
+    apply adjb_repeat_app; [exact Hx| |exact IH].
+    cbn [forallb fst snd] in Hr. apply andb_true_iff in Hr. destruct Hr as [Hy _].
+    apply andb_true_iff in Hy. destruct Hy as [_ Hj]. apply Nat.ltb_lt in Hj.
+    unfold expand. cbn [flat_map fst snd]. destruct j as [|j']; [lia|]. cbn [repeat app]. exact Hxy.
+Qed.
+
 Lemma layout_expand a b inner q m :
   layout a b inner q m = expand ((a, q) :: map (fun x => (x, m)) inner ++ [(b, q)]).
 Proof.
